@@ -190,6 +190,11 @@ g('tri_q_spac_unq', '<dtml-var x url_quote spacify url_unquote>')
 g('pair_br_unq', '<dtml-var x newline_to_br url_unquote>', br=True)
 g('pair_tc_sql', '<dtml-var x thousands_commas sql_quote>')
 g('fmtq_unq', '<dtml-var x fmt=url-quote url_unquote>')
+g('fmt_ml_unq', '<dtml-var x fmt=multi-line url_unquote>', br=True)
+g('fmt_ml_unqp', '<dtml-var x fmt="multi-line" url_unquote_plus>', br=True)
+g('fmt_ml_unq_epfs', '%(x fmt=multi-line url_unquote)s', String, br=True)
+g('fmt_sql_unq', '<dtml-var x fmt=sql-quote url_unquote>')
+g('fmt_uq_unq', '<dtml-var x fmt=url-quote url_unquote_plus>')
 g('all_quoting', '<dtml-var x html_quote url_quote url_unquote sql_quote thousands_commas spacify>')
 
 GT = {k: cooked(v[0], v[1]) for k, v in GLUE.items()}
